@@ -8,6 +8,9 @@
 #include <asam_cmp/capture_module_payload.h>
 #include <asam_cmp/decoder.h>
 #include <asam_cmp/encoder.h>
+#include <list>
+#include <deque>
+#include <chrono>
 #include <locale>
 #include <asam_cmp/ethernet_payload.h>
 #include <asam_cmp/interface_payload.h>
@@ -377,6 +380,33 @@ struct InitProbe
 };
 static InitProbe g_initProbe;
 
+// ---- input placement: a caller's buffer may start at ANY address (a CMP frame behind a 14-byte Ethernet header, ...). The copy handed to
+// the library ends exactly at the end of its heap block (ASan sees every read past the end) and starts at an offset 0..7 into it that
+// is derived from the content, so that all alignments occur.
+struct Placed
+{
+    uint8_t* blk;
+    uint8_t* p;
+    size_t n;
+    explicit Placed(const Bytes& src)
+    {
+        n = src.size();
+        size_t off = (n * 5 + (n ? src[0] : 0) + (n > 1 ? src[n - 1] : 0)) % 8;
+        blk = static_cast<uint8_t*>(malloc(n + off ? n + off : 1));
+        p = blk + off;
+        if (n)
+            memcpy(p, src.data(), n);
+    }
+    ~Placed()
+    {
+        if (n)
+            memset(p, 0xDD, n);
+        free(blk);
+    }
+    Placed(const Placed&) = delete;
+    Placed& operator=(const Placed&) = delete;
+};
+
 struct World
 {
     CStream out;
@@ -395,14 +425,15 @@ struct World
     {
         if (!dec.count(k))
             dec[k] = std::make_unique<Decoder>();
-        // exact-size heap copy of the input, released before the results are read (C02: packets own their data)
-        uint8_t* blk = static_cast<uint8_t*>(malloc(buf.size() ? buf.size() : 1));
-        if (buf.size())
-            memcpy(blk, buf.data(), buf.size());
-        auto res = dec[k]->decode(blk, buf.size());
-        bool modified = buf.size() && memcmp(blk, buf.data(), buf.size()) != 0;
-        memset(blk, 0xDD, buf.size());
-        free(blk);
+        // heap copy of the input that ends at the end of its block and starts at a content-derived offset; released before the results
+        // are read (C02: packets own their data)
+        std::vector<std::shared_ptr<Packet>> res;
+        bool modified = false;
+        {
+            Placed in(buf);
+            res = dec[k]->decode(in.p, in.n);
+            modified = in.n && memcmp(in.p, buf.data(), in.n) != 0;
+        }
         long long pc = -1, pb = -1;
 #ifdef ASAM_CMP_VERIF
         pc = static_cast<long long>(dec[k]->verifPendingCount());
@@ -669,7 +700,7 @@ struct World
         }
         else if (op == "PEMPTY")
             pk[N(0)] = Packet();
-        else if (op == "ENC" || op == "ENC1" || op == "ENCP" || op == "ENCQ")
+        else if (op == "ENC" || op == "ENC1" || op == "ENCP" || op == "ENCQ" || op == "ENCL" || op == "ENCD" || op == "ENCR")
         {
             DataContext ctx{static_cast<size_t>(N(0)), static_cast<size_t>(N(1))};
             if (op == "ENC1")
@@ -680,6 +711,30 @@ struct World
                 for (size_t i = 2; i < l.n.size(); ++i)
                     v.push_back(std::make_shared<Packet>(pk[l.n[i]]));
                 frames = enc->encode(v.begin(), v.end(), ctx);
+            }
+            else if (op == "ENCL")
+            {
+                // any forward range is a legal batch: a linked list ...
+                std::list<Packet> v;
+                for (size_t i = 2; i < l.n.size(); ++i)
+                    v.push_back(pk[l.n[i]]);
+                frames = enc->encode(v.begin(), v.end(), ctx);
+            }
+            else if (op == "ENCD")
+            {
+                // ... a deque (random access, not contiguous) ...
+                std::deque<Packet> v;
+                for (size_t i = 2; i < l.n.size(); ++i)
+                    v.push_back(pk[l.n[i]]);
+                frames = enc->encode(v.begin(), v.end(), ctx);
+            }
+            else if (op == "ENCR")
+            {
+                // ... reverse iterators over a vector that holds the batch back to front (plus a decoy in front)
+                std::vector<Packet> v;
+                for (size_t i = l.n.size(); i > 2; --i)
+                    v.push_back(pk[l.n[i - 1]]);
+                frames = enc->encode(v.rbegin(), v.rend(), ctx);
             }
             else
             {
@@ -718,6 +773,23 @@ struct World
         }
         else if (op == "SOTHER")
             stCur = 1 - stCur;
+        else if (op == "SLEEP")
+            std::this_thread::sleep_for(std::chrono::milliseconds(N(0)));
+        else if (op == "XRAWHDR")
+        {
+            // Packet::getRawCmpHeader / getRawMessageHeader into a destination that already holds other data
+            if (!pk[N(0)].payload)
+            {
+                // without a payload there is no message type to serialise (the accessors require one)
+                out << "R -\n";
+                return;
+            }
+            uint8_t buf[24];
+            memset(buf, static_cast<int>(N(1)), sizeof(buf));
+            pk[N(0)].getRawCmpHeader(buf);
+            pk[N(0)].getRawMessageHeader(buf + 8);
+            out << "R 0 " << hex(buf, sizeof(buf)) << "\n";
+        }
         else if (op == "SINIT")
             out << g_initProbe.transcript;
         else if (op == "DNEW")
@@ -752,34 +824,29 @@ struct World
             dec.erase(N(0));
         else if (op == "VALID")
         {
-            const Bytes& d = B(0);
-            // exact-size copy so that ASan sees every read past the end
-            Bytes c(d);
-            c.shrink_to_fit();
-            out << "V " << validKind(static_cast<int>(N(0)), c.data(), c.size()) << "\n";
+            Placed c(B(0));
+            out << "V " << validKind(static_cast<int>(N(0)), c.p, c.n) << "\n";
         }
         else if (op == "VIEW")
         {
-            Bytes c(B(0));
-            c.shrink_to_fit();
+            Placed c(B(0));
             int kind = static_cast<int>(N(0));
-            bool v = validKind(kind, c.data(), c.size());
+            bool v = validKind(kind, c.p, c.n);
             out << "V " << v << "\n";
             if (v)
             {
-                auto p = makeTyped(kind, c.data(), c.size());
+                auto p = makeTyped(kind, c.p, c.n);
                 out << viewOf(kind, *p) << "\n";
             }
         }
         else if (op == "PKTNEW")
         {
-            Bytes c(B(0));
-            c.shrink_to_fit();
-            bool v = Packet::isValidPacket(c.data(), c.size());
+            Placed c(B(0));
+            bool v = Packet::isValidPacket(c.p, c.n);
             out << "V " << v << "\n";
             if (v)
             {
-                Packet p(static_cast<CmpHeader::MessageType>(N(0)), c.data(), c.size());
+                Packet p(static_cast<CmpHeader::MessageType>(N(0)), c.p, c.n);
                 out << obsPacket(p) << "\n";
                 // a typed payload accepted by create() must expose in-bounds views only
                 int kind = kindOfType(p.getPayload().getType().getType());
